@@ -91,6 +91,10 @@ func augment(r *hx.Rng, s *gq.SchemaDesc) {
 	}
 	s.Types = append(s.Types, xe)
 	s.Types = append(s.Types, gq.TypeDesc{Kind: "INPUT_OBJECT", Name: "XA"}, gq.TypeDesc{Kind: "INPUT_OBJECT", Name: "XB"})
+	// XM: wide object for mixed literal/variable argument literals (nullable leaves, default, enum, list, nesting, required last)
+	s.Types = append(s.Types, gq.TypeDesc{Kind: "INPUT_OBJECT", Name: "XM", InputFields: []gq.ArgDesc{
+		{Name: "m0", Type: "Int", HasDef: true, Default: 5}, {Name: "m1", Type: "String"}, {Name: "m2", Type: "XE"},
+		{Name: "m3", Type: "[Int]"}, {Name: "m4", Type: "XM"}, {Name: "m5", Type: "[XM]"}, {Name: "m6", Type: "Boolean!"}}})
 	leaves := leafNames(s)
 	g := &vgen{r: r, s: s}
 	field := func(name, typ string, dflt bool) gq.ArgDesc {
@@ -562,6 +566,95 @@ func (g *lgen) lit(te *gq.TypeExpr, depth int, top bool) string {
 	return "1"
 }
 
+// ---- literal trees: valid literals in which chosen positions are replaced by variables
+
+type lnode struct {
+	kind  string // leaf list obj var
+	text  string
+	typ   string // declared type of the position
+	kids  []*lnode
+	names []string
+}
+
+func (g *lgen) tree(te *gq.TypeExpr, depth int) *lnode {
+	r := g.r
+	pos := te.String()
+	for te.Kind == "nonNull" {
+		te = te.Of
+	}
+	if te.Kind == "list" {
+		n := &lnode{kind: "list", typ: pos}
+		k := r.Range(1, 3)
+		for i := 0; i < k; i++ {
+			n.kids = append(n.kids, g.tree(te.Of, depth))
+		}
+		return n
+	}
+	td := g.s.Type(te.Name)
+	if td != nil && td.Kind == "INPUT_OBJECT" {
+		n := &lnode{kind: "obj", typ: pos}
+		for _, f := range td.InputFields {
+			fe, _ := gq.ParseType(f.Type)
+			ftd := g.s.Type(fe.NamedName())
+			nested := ftd != nil && ftd.Kind == "INPUT_OBJECT"
+			if fe.Kind != "nonNull" && (nested && depth <= 0 || r.Chance(1, 4)) {
+				continue
+			}
+			n.names = append(n.names, f.Name)
+			n.kids = append(n.kids, g.tree(fe, depth-1))
+		}
+		return n
+	}
+	save, saveV := g.mut, g.noVars
+	g.mut, g.noVars = 0, true
+	text := g.lit(te, 0, false)
+	g.mut, g.noVars = save, saveV
+	if td != nil && td.Kind == "SCALAR" {
+		text = r.Pick([]string{"1", "3", `"3"`})
+	}
+	if te.Name == "Int" {
+		text = strconv.Itoa(r.Range(-50, 1000))
+	}
+	if te.Name == "ID" {
+		text = r.Pick([]string{"42", `"id1"`, "1234567"})
+	}
+	return &lnode{kind: "leaf", text: text, typ: pos}
+}
+
+type lpos struct {
+	node   *lnode
+	parent *lnode
+	index  int
+	depth  int
+}
+
+func (n *lnode) positions(parent *lnode, index, depth int, out *[]lpos) {
+	if parent != nil {
+		*out = append(*out, lpos{n, parent, index, depth})
+	}
+	for i, k := range n.kids {
+		k.positions(n, i, depth+1, out)
+	}
+}
+
+func (n *lnode) render() string {
+	switch n.kind {
+	case "list":
+		var parts []string
+		for _, k := range n.kids {
+			parts = append(parts, k.render())
+		}
+		return "[" + strings.Join(parts, ", ") + "]"
+	case "obj":
+		var parts []string
+		for i, k := range n.kids {
+			parts = append(parts, n.names[i]+": "+k.render())
+		}
+		return "{" + strings.Join(parts, ", ") + "}"
+	}
+	return n.text
+}
+
 // renderLit writes a wire value as the literal a client would write for type te ("" if it has no literal form).
 func renderLit(s *gq.SchemaDesc, te *gq.TypeExpr, v interface{}) (string, bool) {
 	if v == nil {
@@ -735,6 +828,8 @@ type execCase struct {
 	Query   string                 `json:"query"`
 	Inputs  map[string]interface{} `json:"inputs"`
 	NumMode string                 `json:"numMode"`
+	// a second variable assignment, executed on the SAME plan (PlanQuery once, ExecutePlan per assignment)
+	Inputs2 map[string]interface{} `json:"inputs2,omitempty"`
 	// literal/variable agreement: the same conformant value once through a variable (Query/Inputs), once inline
 	LitQuery string `json:"litQuery,omitempty"`
 }
@@ -1069,6 +1164,98 @@ func (h *harness) doQuery(c execCase, query string) (rec *recorded, res *graphql
 	return rec, res, valid, panicked
 }
 
+// askExec asks the model for the outcome of the document under one variable assignment.
+func (h *harness) askExec(c execCase, doc *ast.Document, inputs map[string]interface{}) (m execResp, raw map[string]interface{}, ok bool) {
+	if err := h.drv.Ask(map[string]interface{}{"op": "exec", "schema": c.Schema, "doc": astjson.Document(doc), "inputs": inputs}, &raw); err != nil {
+		h.run.CheckError(err.Error())
+		return m, raw, false
+	}
+	bts, _ := json.Marshal(raw)
+	dd := json.NewDecoder(strings.NewReader(string(bts)))
+	dd.UseNumber()
+	if err := dd.Decode(&m); err != nil {
+		h.run.CheckError("cannot decode driver answer: " + err.Error())
+		return m, raw, false
+	}
+	m.Args, m.Planned = raw["args"], raw["planned"]
+	return m, raw, m.Vars != nil && m.SpecVars != nil
+}
+
+// planTwice plans the (valid) document once and executes the SAME plan under several variable assignments;
+// every execution must hand the resolver the model's getArgumentValues for that assignment (and S's, where it applies).
+func (h *harness) planTwice(c execCase, doc *ast.Document) {
+	run := h.run
+	rec := &recorded{}
+	hooks := baseHooks()
+	hooks.Resolve = func(typeName, fieldName string) graphql.FieldResolveFn {
+		if typeName == c.Schema.Query && fieldName == "cf" {
+			return func(p graphql.ResolveParams) (interface{}, error) {
+				rec.calls++
+				rec.args = gq.ToWire(map[string]interface{}(p.Args))
+				rec.vars = gq.ToWire(p.Info.VariableValues)
+				return "x", nil
+			}
+		}
+		return nil
+	}
+	b, err := gq.Build(c.Schema, hooks)
+	if err != nil {
+		run.CheckError("schema does not build: " + err.Error())
+		return
+	}
+	var plan *graphql.Plan
+	if p := guard(func() { plan, err = graphql.PlanQuery(&b.Schema, doc, "") }); p != nil || err != nil || plan == nil {
+		run.Violation("PlanQuery failed or panicked on a valid document", map[string]interface{}{"case": c, "panic": p, "error": fmt.Sprint(err)}, false)
+		return
+	}
+	run.Tag("exec:one-plan-several-assignments")
+	for i, inputs := range []map[string]interface{}{c.Inputs, c.Inputs2, c.Inputs} {
+		*rec = recorded{}
+		var res *graphql.Result
+		pan := guard(func() {
+			res = graphql.ExecutePlan(plan, graphql.ExecuteParams{Schema: b.Schema, AST: doc, Args: goVars(inputs, c.NumMode)})
+		})
+		m, raw, ok := h.askExec(c, doc, inputs)
+		if !ok {
+			return
+		}
+		real := map[string]interface{}{"execution": i, "inputs": inputs, "calls": rec.calls, "args": rec.args, "variableValues": rec.vars, "panic": pan}
+		if res != nil {
+			real["dataIsNil"], real["errors"] = res.Data == nil, len(res.Errors)
+		}
+		fail := func(note string) {
+			run.Violation(fmt.Sprintf("same plan, execution #%d: %s", i+1, note), map[string]interface{}{"case": c, "real": real, "model": raw}, false)
+		}
+		if pan != nil || res == nil {
+			fail("ExecutePlan panicked")
+			return
+		}
+		if !m.Vars.Ok {
+			if res.Data != nil || len(res.Errors) < 1 || rec.calls != 0 {
+				fail("uncoercible variables (model): expected no data, at least one error and no resolver call")
+				return
+			}
+			continue
+		}
+		if rec.calls != 1 {
+			fail(fmt.Sprintf("variables coercible (model) but the resolver ran %d times", rec.calls))
+			return
+		}
+		if hx.Canon(rec.vars) != hx.Canon(m.Vars.Val) {
+			fail("Info.VariableValues differs from the model's getVariableValues")
+			return
+		}
+		if hx.Canon(rec.args) != hx.Canon(m.Args) {
+			fail("p.Args differs from the model's getArgumentValues (plan-time pre-coercion of an argument that depends on variables?)")
+			return
+		}
+		if m.LitsValid && m.VarsProvided && m.SpecArgs != nil && m.SpecArgs.Ok && hx.Canon(rec.args) != hx.Canon(m.SpecArgs.Val) {
+			fail("p.Args differs from the specification's CoerceArgumentValues")
+			return
+		}
+	}
+}
+
 func (h *harness) exec(c execCase, tags map[string]bool) {
 	run := h.run
 	doc, err := parser.Parse(parser.ParseParams{Source: c.Query})
@@ -1122,6 +1309,12 @@ func (h *harness) exec(c execCase, tags map[string]bool) {
 			fail("a resolver ran although validation rejected the document")
 		}
 		return
+	}
+	if c.Inputs2 != nil {
+		h.planTwice(c, doc)
+		if run.TooManyViolations() {
+			return
+		}
 	}
 	// the document is valid: the validation rules and isValidLiteralValue must agree on the literals
 	if !m.DefaultsValid {
@@ -1308,7 +1501,101 @@ func (h *harness) genExec(r *hx.Rng, s *gq.SchemaDesc, idx int) (execCase, map[s
 		}
 		return "(" + strings.Join(out, ", ") + ")"
 	}
-	switch r.Intn(4) {
+	form := r.Intn(6)
+	if form >= 4 {
+		// argument literal that MIXES literal and variable parts: a valid literal tree in which the position number
+		// idx (round-robin over all inner positions: first/middle/last field, every list index, nested) and
+		// sometimes a second one are replaced by variables declared with the position's type
+		tags["exec:form=mixed-literal"] = true
+		mixedNamed := []string{"XM", "XM", "XA", "XB", "XM", r.Pick(leafNames(s))}[r.Intn(6)]
+		mixedShape := shapes[idx%len(shapes)]
+		if s.Type(mixedNamed) == nil || s.Type(mixedNamed).Kind != "INPUT_OBJECT" {
+			if !strings.Contains(mixedShape, "L") {
+				mixedShape = "L" + mixedShape
+			}
+		}
+		typ = applyShape(mixedNamed, mixedShape)
+		te, _ = gq.ParseType(typ)
+		a = gq.ArgDesc{Name: "a", Type: typ}
+		fd = gq.FieldDesc{Name: "cf", Type: "String", Args: []gq.ArgDesc{a, bArg}}
+		c.Schema = withField(s, fd)
+		lg := &lgen{r: r, s: s}
+		root := lg.tree(te, r.Range(1, 2))
+		var ps []lpos
+		root.positions(nil, 0, 0, &ps)
+		var decls []string
+		c.Inputs2 = map[string]interface{}{}
+		if len(ps) > 0 {
+			chosen := []lpos{ps[(idx/len(shapes))%len(ps)]}
+			if r.Chance(1, 3) {
+				chosen = append(chosen, ps[r.Intn(len(ps))])
+			}
+			for k, p := range chosen {
+				if p.node.kind == "var" || p.node.kind == "dead" || p.parent.kind == "dead" || p.parent.kind == "var" {
+					continue
+				}
+				name := fmt.Sprintf("v%d", k)
+				where := "middle"
+				if p.index == 0 {
+					where = "first"
+				} else if p.index == len(p.parent.kids)-1 {
+					where = "last"
+				}
+				if len(p.parent.kids) == 1 {
+					where = "only"
+				}
+				tags[fmt.Sprintf("mixed:var-in-%s-%s", p.parent.kind, where)] = true
+				tags[fmt.Sprintf("mixed:var-depth-%d", p.depth)] = true
+				if p.parent.kind == "list" && p.node.kind == "obj" {
+					tags["mixed:object-in-list-replaced"] = true
+				}
+				ute, _ := gq.ParseType(p.node.typ)
+				var kill func(n *lnode)
+				kill = func(n *lnode) {
+					for _, k := range n.kids {
+						k.kind = "dead"
+						kill(k)
+					}
+				}
+				kill(p.node)
+				p.node.kind, p.node.text, p.node.kids = "var", "$"+name, nil
+				dflt := ""
+				if ute.Kind != "nonNull" && r.Chance(1, 6) {
+					dl := &lgen{r: r, s: s, noVars: true}
+					if d := dl.lit(ute, 1, true); d != "" {
+						dflt = " = " + d
+					}
+				}
+				decls = append(decls, fmt.Sprintf("$%s: %s%s", name, p.node.typ, dflt))
+				for _, in := range []map[string]interface{}{c.Inputs, c.Inputs2} {
+					g := &vgen{r: r, s: s}
+					switch r.Intn(8) {
+					case 0: // absent
+					case 1:
+						in[name] = nil
+					default:
+						in[name] = g.val(ute, 1, false)
+					}
+				}
+			}
+			// siblings of a replaced node that contain objects in lists / lists in objects
+			for _, p := range ps {
+				if p.node.kind == "list" && p.parent.kind == "obj" {
+					tags["mixed:list-inside-object"] = true
+				}
+				if p.node.kind == "obj" && p.parent.kind == "list" {
+					tags["mixed:object-inside-list"] = true
+				}
+			}
+		}
+		head := ""
+		if len(decls) > 0 {
+			head = "query(" + strings.Join(decls, ", ") + ") "
+		}
+		c.Query = fmt.Sprintf("%s{ cf%s }", head, join("a: "+root.render(), bText))
+		return c, tags
+	}
+	switch form {
 	case 0, 1: // whole argument through a variable
 		tags["exec:form=variable"] = true
 		g := &vgen{r: r, s: s, mut: []int{0, 0, 1, 3}[r.Intn(4)], tags: tags}
@@ -1335,6 +1622,13 @@ func (h *harness) genExec(r *hx.Rng, s *gq.SchemaDesc, idx int) (execCase, map[s
 			c.Inputs["v"] = g.val(vte, r.Range(0, 2), false)
 		}
 		c.Query = fmt.Sprintf("query($v: %s%s) { cf%s }", varType, dflt, join("a: $v", bText))
+		if r.Chance(1, 2) {
+			g2 := &vgen{r: r, s: s}
+			c.Inputs2 = map[string]interface{}{}
+			if !r.Chance(1, 6) {
+				c.Inputs2["v"] = g2.val(vte, 1, false)
+			}
+		}
 		if g.mut == 0 && c.Inputs["v"] != nil {
 			if text, ok := renderLit(s, vte, c.Inputs["v"]); ok {
 				c.LitQuery = fmt.Sprintf("{ cf%s }", join("a: "+text, bText)) // used only if the model calls the value conformant
@@ -1371,6 +1665,15 @@ func (h *harness) genExec(r *hx.Rng, s *gq.SchemaDesc, idx int) (execCase, map[s
 				c.Inputs[u.Name] = nil
 			default:
 				c.Inputs[u.Name] = g.val(ute, 1, false)
+			}
+		}
+		if len(lg.uses) > 0 {
+			c.Inputs2 = map[string]interface{}{}
+			for _, u := range lg.uses {
+				ute, _ := gq.ParseType(u.Type)
+				if !r.Chance(1, 6) {
+					c.Inputs2[u.Name] = (&vgen{r: r, s: s}).val(ute, 1, false)
+				}
 			}
 		}
 		head := ""
